@@ -17,6 +17,7 @@ import CtyModel.Props.C02
 import CtyModel.Lemmas.d06Cons
 import CtyModel.Lemmas.d06WF
 import CtyModel.Props.C17Json
+import CtyModel.Lemmas.d06Convert
 namespace CtyModel
 namespace C06
 open Value
@@ -390,6 +391,46 @@ theorem wf_jsonUnmarshal (env : JsonVal.JEnv) (hl : C17Json.Laws env) (j : Json)
     (hty : Ty.wf ty = true) (hn : Ty.namesAll (C17Json.nfcOf env.norm) ty = true)
     (h : JsonVal.unmarshalTop env j ty = .ok v) : v.WF (C17Json.nfcOf env.norm) = true :=
   C17.json_ok_wellformed env hl j ty v hty hn h
+
+/-! ## d06 — conversion: "any value returned by a … conversion" (with C08)
+
+About the REAL conversion model `Convert.convert` / `getConv` / `apply` (CtyModel/Convert.lean, diffed against
+cty/convert by the C08 correspondence), for every placeholder-free target, sets as results included.  What is
+taken from elsewhere is explicit: `UnifyLaws` (C09, as in C08); `D06Conv.SetWFLaws nfc E` — on well-formed,
+mark-free members the environment's `Equivalent` is coherent with the `Equals` that `WF` judges duplicates by,
+and equivalent members hash alike (what C03 establishes for plain element types); `D06Conv.TextLaws nfc` — the
+texts `number → string` and `bool → string` produce are NFC (digits, sign, point; "true"/"false"). -/
+
+/-- `convert.Convert(v, want)`: a well-formed value converts to a well-formed value (of type `want` without its
+optional-attribute annotations, C08): payload kinds, lengths, attribute sets, NFC strings and keys, sets
+unmarked / ordered / duplicate-free, one mark layer, refinement kinds. -/
+theorem wf_convert (E : Convert.Env) (hU : Convert.UnifyLaws E) (hS : D06Conv.SetWFLaws nfc E)
+    (hT : D06Conv.TextLaws nfc) (fuel : Nat) (v r : Value) (want : Ty) (hw : want.wf = true)
+    (hd : want.hasDyn = false) (hn : want.namesAll nfc = true) (hv : v.WF nfc = true)
+    (h : Convert.convert E fuel v want = .ok r) : r.WF nfc = true :=
+  D06Conv.convert_wf' E hU hS hT fuel v r want hw hd hn hv h
+
+/-- the same for a conversion obtained from `GetConversion` / `GetConversionUnsafe` and then applied -/
+theorem wf_conversion_applied (E : Convert.Env) (hU : Convert.UnifyLaws E) (hS : D06Conv.SetWFLaws nfc E)
+    (hT : D06Conv.TextLaws nfc) (fuel : Nat) (uns : Bool) (p : Convert.Plan) (v r : Value) (want : Ty)
+    (hw : want.wf = true) (hd : want.hasDyn = false) (hn : want.namesAll nfc = true) (hv : v.WF nfc = true)
+    (hg : Convert.getConv E v.ty want uns = some p) (h : Convert.apply E fuel p v = .ok r) : r.WF nfc = true :=
+  D06Conv.apply_wf' E hU hS hT fuel uns p v r want hw hd hn hv hg h
+
+/-- the set laws reduce, for the environment the driver runs (`Env.concrete`), to symmetry of "`Equals` is known
+true" and coherence of the set hash with it, on well-formed mark-free members -/
+theorem convert_setLaws_of_equals_laws (U : Bool → List Ty → Option Ty)
+    (hsym : ∀ t a b, D06Conv.SetMem nfc t a → D06Conv.SetMem nfc t b → equivP t a b = false → equivP t b a = false)
+    (hcoh : ∀ t a b ha hb, D06Conv.SetMem nfc t a → D06Conv.SetMem nfc t b → Convert.hashC t a = .ok ha →
+      Convert.hashC t b = .ok hb → equivP t a b = true → ha = hb) : D06Conv.SetWFLaws nfc (Convert.Env.concrete U) :=
+  D06Conv.setWFLaws_concrete U hsym hcoh
+
+/-- non-vacuity: a marked list [1, 1, 2] inside an object converts to the marked set {"1", "2"}, `true` to "true",
+the missing optional attribute is filled with null — all hypotheses hold of this instance -/
+example : ∃ r, Convert.convert D06Conv.envDedup 8 D06Conv.exVal D06Conv.exWant = .ok r ∧ r.WF (fun _ => true) = true :=
+  ⟨_, D06Conv.exConvert,
+    wf_convert D06Conv.envDedup D06Conv.unifyLaws_envDedup (D06Conv.setWFLaws_envDedup _) D06Conv.textLaws_true 8
+      D06Conv.exVal _ D06Conv.exWant (by decide) (by decide) (by decide) (by decide) D06Conv.exConvert⟩
 
 /-! ## non-vacuity: the hypotheses are met by a nested, marked, partly unknown value, and the
 conclusions are not trivially true (neighbouring ill-formed values are rejected by `WF`) -/
